@@ -191,9 +191,9 @@ def generate_faults(tier):
         runs = [("InnerSmall", dconsts("InnerSmall", 1, ALL_FAULTS, "L", max_len=2), None),
                 ("InnerDef", dconsts("InnerDef", 3, ALL_FAULTS, "LB", max_types=2, max_len=2), 60)]
     else:
-        runs = [("InnerSmall", dconsts("InnerSmall", 2, ALL_FAULTS, "L", max_len=1, widths="u18"), None),
+        runs = [("InnerSmall", dconsts("InnerSmall", 2, ALL_FAULTS, "L", max_len=1), None),
                 ("InnerDef", dconsts("InnerDef", 1, ALL_FAULTS, "LB", max_len=2), None),
-                ("InnerDef", dconsts("InnerDef", 4, ALL_FAULTS, "LB", max_types=3, max_len=3), 2500)]
+                ("InnerDef", dconsts("InnerDef", 4, ALL_FAULTS, "LB", max_types=3, max_len=3), 600)]
     for inner, c, sim in runs:
         res = run_tlc("WireDecMC", c, invariants=DEC_INVARIANTS, prefix=("FVEC", "INNER"), spec="DSpec",
                       simulate=sim, depth=600, seed=sd)
